@@ -381,6 +381,10 @@ def vary_names(decls, every=3, upper=True, raw=True):
         d.setdefault("args_trailing", k % 4 >= 2)
         # every fourth declaration is produced by a macro_rules! expansion (rustgen.macro_wrapped; trace legs only)
         d.setdefault("wrap", "macro" if k % 4 == 1 else "")
+        for j, e in enumerate(d.get("enums", [])):
+            e.setdefault("args_rev", (k + j) % 2 == 1)          # #[bitenum(exhaustive = .., uN)]
+            if (k + j) % 3 == 0 and e["variants"]:
+                e["variants"][-1].setdefault("attrs", ["#[cfg_attr(all(), doc = \"documented through cfg_attr\")]", "#[allow(dead_code)]"])
         if k % every != 0:
             continue
         used = set()
